@@ -348,3 +348,128 @@ Proof.
     unfold clean in Hc. rewrite Forall_forall in Hc. specialize (Hc c H).
     unfold is_lt in Hc. apply orb_false_iff in Hc as [_ Hc]. exact Hc.
 Qed.
+
+(* ---- the cursor invariant ---- *)
+Definition cur_ok (pre : list N) (cu : cursor) : Prop :=
+  cpos cu = length pre /\ cline cu = S (count_lt false pre) /\
+  (cls cu + tail_len 0 pre = length pre)%nat.
+
+(* the cursor is never between the CR and the LF of a CR LF *)
+Definition no_split (pre s : list N) : Prop :=
+  lastcr false pre = false \/ peek_is (N.eqb LF) s = false.
+
+Lemma lastcr_snoc b pre c : lastcr b (pre ++ [c]) = (c =? CR).
+Proof. unfold lastcr. rewrite rev_app_distr. reflexivity. Qed.
+
+Lemma count_snoc_plain pre c : (c =? CR) = false -> (c =? LF) = false ->
+  count_lt false (pre ++ [c]) = count_lt false pre.
+Proof.
+  intros H1 H2. rewrite count_lt_app.
+  - cbn. rewrite H1, H2. lia.
+  - right. cbn [peek_is]. rewrite N.eqb_sym. exact H2.
+Qed.
+
+Lemma tail_snoc_plain pre c : (c =? CR) = false -> (c =? LF) = false ->
+  tail_len 0 (pre ++ [c]) = S (tail_len 0 pre).
+Proof. intros H1 H2. rewrite tail_len_app. cbn. rewrite H1, H2. reflexivity. Qed.
+
+Lemma tail_snoc_lt pre c : ((c =? CR) || (c =? LF)) = true -> tail_len 0 (pre ++ [c]) = 0%nat.
+Proof. intros H. rewrite tail_len_app. cbn. rewrite H. reflexivity. Qed.
+
+Lemma cur_ok_plain pre cu c : cur_ok pre cu -> (c =? CR) = false -> (c =? LF) = false ->
+  cur_ok (pre ++ [c]) (mkCur (S (cpos cu)) (cline cu) (cls cu)).
+Proof.
+  intros (Hp & Hl & Hs) H1 H2. unfold cur_ok. cbn [cpos cline cls].
+  rewrite app_length, count_snoc_plain, tail_snoc_plain by assumption. cbn [length]. repeat split; lia.
+Qed.
+
+Lemma cur_ok_lf pre cu : cur_ok pre cu -> lastcr false pre = false ->
+  cur_ok (pre ++ [LF]) (mkCur (S (cpos cu)) (S (cline cu)) (S (cpos cu))).
+Proof.
+  intros (Hp & Hl & Hs) Hn. unfold cur_ok. cbn [cpos cline cls].
+  rewrite app_length, tail_snoc_lt by reflexivity. cbn [length].
+  rewrite count_lt_app by (left; exact Hn). cbn. repeat split; lia.
+Qed.
+
+Lemma cur_ok_cr pre cu : cur_ok pre cu ->
+  cur_ok (pre ++ [CR]) (mkCur (S (cpos cu)) (S (cline cu)) (S (cpos cu))).
+Proof.
+  intros (Hp & Hl & Hs). unfold cur_ok. cbn [cpos cline cls].
+  rewrite app_length, tail_snoc_lt by reflexivity. cbn [length].
+  rewrite count_lt_app by (right; reflexivity). cbn. repeat split; lia.
+Qed.
+
+Lemma cur_ok_crlf pre cu : cur_ok pre cu ->
+  cur_ok (pre ++ [CR; LF]) (mkCur (cpos cu + 2) (S (cline cu)) (cpos cu + 2)).
+Proof.
+  intros (Hp & Hl & Hs). unfold cur_ok. cbn [cpos cline cls].
+  rewrite app_length. cbn [length].
+  rewrite count_lt_app by (right; reflexivity).
+  rewrite tail_len_app. cbn. repeat split; lia.
+Qed.
+
+Lemma skip_cur_ok_n n : forall s pre cu cu' s', (length s <= n)%nat ->
+  cur_ok pre cu -> no_split pre s -> skip_ignored cu s = (cu', s') ->
+  exists ign, s = ign ++ s' /\ cur_ok (pre ++ ign) cu' /\ no_split (pre ++ ign) s'.
+Proof.
+  induction n as [|n IH]; intros s pre cu cu' s' Hn Hok Hns H.
+  - destruct s; [|cbn in Hn; lia]. cbn in H. inversion H; subst.
+    exists []. rewrite !app_nil_r. split; [reflexivity|]. split; [exact Hok|]. right. reflexivity.
+  - destruct s as [|c t].
+    { cbn in H. inversion H; subst. exists []. rewrite !app_nil_r. split; [reflexivity|]. split; [exact Hok|]. right. reflexivity. }
+    cbn [skip_ignored] in H.
+    assert (Hstep : forall k (chunk : list N) cu1 rest, s' = s' ->
+              c :: t = chunk ++ rest -> (length rest <= n)%nat ->
+              cur_ok (pre ++ chunk) cu1 -> no_split (pre ++ chunk) rest ->
+              skip_ignored cu1 rest = (cu', s') ->
+              exists ign, c :: t = ign ++ s' /\ cur_ok (pre ++ ign) cu' /\ no_split (pre ++ ign) s').
+    { intros _ chunk cu1 rest _ Hsplit Hlen Hok1 Hns1 Hrec.
+      destruct (IH rest (pre ++ chunk) cu1 cu' s' Hlen Hok1 Hns1 Hrec) as (ign & E & Ho & Hn').
+      exists (chunk ++ ign). rewrite <- !app_assoc in *. rewrite Hsplit, E. rewrite <- app_assoc.
+      repeat split; assumption. }
+    destruct (is_ws_ignored c) eqn:Ew.
+    { assert (Hc1 : (c =? CR) = false /\ (c =? LF) = false).
+      { unfold is_ws_ignored in Ew. unfold CR, LF.
+        split; apply N.eqb_neq; intros ->; vm_compute in Ew; discriminate. }
+      destruct Hc1 as [Hc1 Hc2].
+      apply (Hstep 0%nat [c] _ t eq_refl eq_refl ltac:(cbn in Hn; lia)
+               (cur_ok_plain pre cu c Hok Hc1 Hc2)); [|exact H].
+      left. rewrite lastcr_snoc. exact Hc1. }
+    destruct (c =? LF) eqn:El.
+    { apply N.eqb_eq in El. subst c.
+      assert (Hlc : lastcr false pre = false).
+      { destruct Hns as [Hx|Hx]; [exact Hx|]. cbn [peek_is] in Hx. rewrite N.eqb_refl in Hx. discriminate. }
+      apply (Hstep 0%nat [LF] _ t eq_refl eq_refl ltac:(cbn in Hn; lia) (cur_ok_lf pre cu Hok Hlc)); [|exact H].
+      left. rewrite lastcr_snoc. reflexivity. }
+    destruct (c =? CR) eqn:Ec.
+    { apply N.eqb_eq in Ec. subst c.
+      destruct t as [|d t'].
+      - inversion H; subst. exists [CR]. split; [reflexivity|]. split; [apply cur_ok_cr; exact Hok|].
+        right. reflexivity.
+      - destruct (d =? LF) eqn:Ed.
+        + apply N.eqb_eq in Ed. subst d.
+          apply (Hstep 0%nat [CR; LF] _ t' eq_refl eq_refl ltac:(cbn in Hn; lia) (cur_ok_crlf pre cu Hok)); [|exact H].
+          left. unfold lastcr. rewrite rev_app_distr. reflexivity.
+        + apply (Hstep 0%nat [CR] _ (d :: t') eq_refl eq_refl ltac:(cbn in Hn; cbn; lia) (cur_ok_cr pre cu Hok)); [|exact H].
+          right. cbn [peek_is]. rewrite N.eqb_sym. exact Ed. }
+    inversion H; subst. exists []. rewrite !app_nil_r. split; [reflexivity|]. split; [exact Hok|].
+    right. cbn [peek_is]. rewrite N.eqb_sym. exact El.
+Qed.
+
+Lemma skip_cur_ok s pre cu cu' s' :
+  cur_ok pre cu -> no_split pre s -> skip_ignored cu s = (cu', s') ->
+  exists ign, s = ign ++ s' /\ cur_ok (pre ++ ign) cu' /\ no_split (pre ++ ign) s'.
+Proof. apply (skip_cur_ok_n (length s)). lia. Qed.
+
+(* a clean, non-empty lexeme: the line and the line start do not change *)
+Lemma cur_ok_clean pre cu lx e : cur_ok pre cu -> clean lx -> lx <> [] -> e = (cpos cu + length lx)%nat ->
+  cur_ok (pre ++ lx) (mkCur e (cline cu) (cls cu)) /\ lastcr false (pre ++ lx) = false.
+Proof.
+  intros (Hp & Hl & Hs) Hc Hne ->. split.
+  - unfold cur_ok. cbn [cpos cline cls]. rewrite app_length.
+    rewrite count_lt_app.
+    + rewrite (count_lt_clean false lx Hc). rewrite tail_len_app, tail_len_clean by exact Hc. repeat split; lia.
+    + right. destruct lx as [|c r]; [congruence|]. inversion Hc as [|? ? Hc1 _]; subst.
+      cbn [app peek_is]. unfold is_lt in Hc1. apply orb_false_iff in Hc1 as [Hc1 _]. rewrite N.eqb_sym. exact Hc1.
+  - rewrite lastcr_app_nonempty by exact Hne. apply lastcr_clean; assumption.
+Qed.
